@@ -137,4 +137,10 @@ def suite_user_code(ctx):
     return core.suite_user_code('memloc_subclass', 'memory-addressed request')
 
 
-SUITES = [suite_enc, suite_iso, suite_mem_frames, suite_two_clients, suite_reentrant, suite_races, suite_user_code]
+def suite_hist(ctx):
+    """whole histories against the model's hrun, read for this property (harness/histsw.py): the frame of a call made outside every block"""
+    from .. import histsw
+    return histsw.suite_hist(ctx, 'C01')
+
+
+SUITES = [suite_enc, suite_iso, suite_mem_frames, suite_two_clients, suite_reentrant, suite_races, suite_user_code, suite_hist]
